@@ -897,6 +897,14 @@ pub fn run(args: &Args) {
     if let Some(p) = &args.replay {
         let v: Value = serde_json::from_str(&std::fs::read_to_string(p).unwrap()).unwrap();
         let case = &v["case"];
+        if case["kind"] == "c13-forms" {
+            let mut rng = Rng::new(args.seed);
+            println!("re-running the normalized-forms stream (implementation only); failing text was {}", case["text"]);
+            normalized_forms_stream(&mut sink, &mut rng, args);
+            cleanup(args);
+            sink.finish();
+            return;
+        }
         let directed = case["directed"].as_u64().unwrap_or(0) as u32;
         let cfg = gen_config(case["config_seed"].as_u64().unwrap(), &args.work, directed);
         println!("char.def:\n{}\nunk.def:\n{}\nproviders: {}\nlexicon: {:?}", cfg.char_def, cfg.unk_def, cfg.plugins, cfg.words);
@@ -904,6 +912,7 @@ pub fn run(args: &Args) {
             println!("configuration does not load: {}", e);
             let id = sink.case_rust_only(case.clone(), false);
             sink.fail(id, &format!("well-formed configuration rejected: {}", e), "");
+            cleanup(args);
             sink.finish();
             return;
         }
@@ -916,6 +925,7 @@ pub fn run(args: &Args) {
         }
         println!("Coq term:\n{}", out.term);
         emit(&mut sink, out.desc.clone(), json!({"directed": directed, "call_seed": case["call_seed"]}), out);
+        cleanup(args);
         sink.finish();
         return;
     }
@@ -955,6 +965,87 @@ pub fn run(args: &Args) {
             emit(&mut sink, out.desc.clone(), json!({"directed": 0, "call_seed": cs}), out);
         }
     }
-    let _ = std::fs::remove_dir_all(args.work.join(format!("c13res-{}", std::process::id())));
+    normalized_forms_stream(&mut sink, &mut rng, args);
+    cleanup(args);
     sink.finish();
+}
+
+/// Implementation-only stream: with the default input-text plugin the analysed text differs from the original one
+/// (full-width / upper-case letters are normalised); an OOV morpheme must report the *normalised* text as its normalized,
+/// dictionary and reading forms, the original text as its surface, dictionary -1 and the configured part of speech.
+fn normalized_forms_stream(sink: &mut Sink, rng: &mut Rng, args: &Args) {
+    let dir = args.work.join(format!("c13res-{}", std::process::id()));
+    std::fs::create_dir_all(&dir).unwrap();
+    let rewrite = std::fs::read_to_string(format!("{}/resources/rewrite.def", repo())).unwrap_or_default();
+    std::fs::write(dir.join("rewrite.def"), rewrite).unwrap();
+    std::fs::write(dir.join("char.def"), "DEFAULT 0 1 0\n0x0061..0x007A ALPHA\n0x0030..0x0039 NUMERIC\n0x4E00..0x9FA5 KANJI\n").unwrap();
+    let cj = json!({"path": dir.to_string_lossy(), "characterDefinitionFile": "char.def",
+        "inputTextPlugin": [{"class": "com.worksap.nlp.sudachi.DefaultInputTextPlugin"}],
+        "oovProviderPlugin": [{"class": "com.worksap.nlp.sudachi.SimpleOovPlugin", "oovPOS": POS_POOL[3], "leftId": 0, "rightId": 0, "cost": 100, "userPOS": "allow"}]});
+    let r = catch(|| -> Result<JapaneseDictionary, String> {
+        let mut b = DictBuilder::new_system();
+        b.read_conn("1 1\n0 0 0\n".as_bytes()).map_err(|e| format!("{:?}", e))?;
+        b.read_lexicon("た,0,0,100,た,名詞,普通名詞,一般,*,*,*,タ,た,*,A,*,*,*,*\n".as_bytes()).map_err(|e| format!("{:?}", e))?;
+        b.resolve().map_err(|e| format!("{:?}", e))?;
+        let mut bytes = Vec::new();
+        b.compile(&mut bytes).map_err(|e| format!("{:?}", e))?;
+        let c = ConfigBuilder::from_bytes(cj.to_string().as_bytes()).map_err(|e| format!("{:?}", e))?.build();
+        JapaneseDictionary::from_cfg_storage(&c, SudachiDicData::new(Storage::Owned(bytes))).map_err(|e| format!("{:?}", e))
+    });
+    let dict = match r {
+        Ok(Ok(d)) => d,
+        other => {
+            let id = sink.case_rust_only(json!({"kind": "c13-forms", "text": ""}), false);
+            sink.fail(id, &format!("configuration with the default input-text plugin does not load: {:?}", other.err().or_else(|| Some("error".into()))), "");
+            return;
+        }
+    };
+    // (original, normalised) pairs of single characters
+    let pairs: [(&str, &str); 10] = [("A", "a"), ("Ｂ", "b"), ("ｃ", "c"), ("d", "d"), ("Ｚ", "z"), ("１", "1"), ("7", "7"), ("京", "京"), ("Q", "q"), ("ｘ", "x")];
+    for _ in 0..args.n(60, 600) {
+        let n = 1 + rng.below(6) as usize;
+        let mut orig = String::new();
+        let mut norm = String::new();
+        for _ in 0..n {
+            let (o, m) = rng.pick(&pairs);
+            orig.push_str(o);
+            norm.push_str(m);
+        }
+        let mut tok = StatefulTokenizer::create(&dict, false, Mode::C);
+        tok.reset().push_str(&orig);
+        let desc = json!({"kind": "c13-forms", "text": orig});
+        let id = sink.case_rust_only(desc, orig != norm);
+        sink.tag("normalized_forms_stream");
+        match catch(|| tok.do_tokenize().map_err(|e| format!("{:?}", e))) {
+            Ok(Ok(())) => {
+                let mut ml = MorphemeList::empty(&dict);
+                ml.collect_results(&mut tok).unwrap();
+                let mut surf = String::new();
+                let mut forms = String::new();
+                for m in ml.iter() {
+                    surf.push_str(&m.surface());
+                    if !m.is_oov() {
+                        sink.fail(id, &format!("{:?}: morpheme {:?} is not OOV although the lexicon cannot match", orig, m.surface().to_string()), "");
+                        continue;
+                    }
+                    let nf = m.normalized_form().to_string();
+                    if m.dictionary_form() != nf || m.reading_form() != nf {
+                        sink.fail(id, &format!("{:?}: forms of an OOV morpheme differ: {:?} {:?} {:?}", orig, nf, m.dictionary_form(), m.reading_form()), "");
+                    }
+                    if m.dictionary_id() != -1 || m.part_of_speech().iter().zip(POS_POOL[3].iter()).any(|(a, b)| a != b) {
+                        sink.fail(id, &format!("{:?}: OOV morpheme reports dictionary {} / part of speech {:?}", orig, m.dictionary_id(), m.part_of_speech()), "");
+                    }
+                    forms.push_str(&nf);
+                }
+                if surf != orig || forms != norm {
+                    sink.fail(id, &format!("{:?}: surfaces concatenate to {:?}, forms to {:?}, normalised text is {:?}", orig, surf, forms, norm), "");
+                }
+            }
+            other => sink.fail(id, &format!("{:?}: tokenization failed: {:?}", orig, other), ""),
+        }
+    }
+}
+
+fn cleanup(args: &Args) {
+    let _ = std::fs::remove_dir_all(args.work.join(format!("c13res-{}", std::process::id())));
 }
